@@ -473,6 +473,10 @@ def _exercise_graph(g: Any, env: Env, async_bodies: bool) -> None:
     env.log, env.park, env.received = [], None, []
     try:
         _ = (g.inputs, g.definition_hash)
+        try:
+            g.to_flat_graph()           # drawing / flattening an intermediate graph must leave nothing behind for graphs derived from it
+        except Exception:  # noqa: BLE001 - only a warm-up
+            pass
         vals = {k: 0 for k in g.inputs.required}
         with warnings.catch_warnings():
             warnings.simplefilter("ignore")
